@@ -102,6 +102,22 @@ Universe ==
     [] Part = "misc" -> {Ins("INT", <<Im(v, "h")>>) : v \in {0, 1, 3, 16, 19, 21, 128, 255}}
                         \cup {Ins(mn, <<Im(v, "d")>>) : mn \in {"RET", "RETF"}, v \in {0, 4, 8, 65535}}
                         \cup {Ins("LGDT", <<m>>) : m \in MemFew(0)}
+    \* forms of the ISA model that gosk does not implement yet (calibration of the model; gosk must report them)
+    [] Part = "ext" -> {Ins("XCHG", <<Rg(w, a), Rg(w, b)>>) : w \in W, a \in {0, 1, 3, 6}, b \in {0, 2, 7}}
+                       \cup UNION {{Ins("XCHG", <<Rg(w, a), m>>), Ins("XCHG", <<m, Rg(w, a)>>)} : w \in W, a \in {0, 3}, m \in MemFew(0)}
+                       \cup {Ins(mn, <<Rg(w, a), m>>) : mn \in {"LEA", "LDS", "LES", "LSS", "LFS", "LGS"}, w \in {16, 32}, a \in {0, 3, 5}, m \in MemFew(0)}
+                       \cup {Ins(mn, <<m>>) : mn \in {"LGDT", "LIDT", "SGDT", "SIDT", "INVLPG", "LLDT", "LTR", "VERR", "VERW", "LMSW", "SLDT", "STR", "SMSW"}, m \in MemFew(0)}
+                       \cup {Ins(mn, <<Rg(16, a)>>) : mn \in {"LLDT", "LTR", "VERR", "VERW", "LMSW", "SLDT", "STR", "SMSW"}, a \in {0, 3, 7}}
+                       \cup {Ins(mn, <<Rg(32, a)>>) : mn \in {"SLDT", "STR", "SMSW", "BSWAP"}, a \in {0, 3, 7}}
+                       \cup {Ins(mn, <<Rg(w, a), Rg(8, b)>>) : mn \in {"MOVZX", "MOVSX"}, w \in {16, 32}, a \in {0, 3}, b \in {0, 1, 7}}
+                       \cup {Ins(mn, <<Rg(32, a), Rg(16, b)>>) : mn \in {"MOVZX", "MOVSX"}, a \in {0, 3}, b \in {0, 6}}
+                       \cup {Ins(mn, <<Rg(w, a), m>>) : mn \in {"MOVZX", "MOVSX"}, w \in {16, 32}, a \in {0, 3}, m \in MemFew(8)}
+                       \cup {Ins(mn, <<Rg(32, a), m>>) : mn \in {"MOVZX", "MOVSX"}, a \in {0, 3}, m \in MemFew(16)}
+                       \cup {Ins("SET" \o cc, <<Rg(8, a)>>) : cc \in {"Z", "NZ", "E", "NE", "C", "NC", "B", "AE", "A", "BE", "L", "GE", "G", "LE", "S", "NS", "O", "NO", "P", "NP"}, a \in {0, 5}}
+                       \cup {Ins("SET" \o cc, <<m>>) : cc \in {"Z", "NE", "A", "L"}, m \in MemFew(8)}
+                       \cup {Ins("ENTER", <<Im(a, "d"), Im(b, "d")>>) : a \in {0, 8, 65535}, b \in {0, 1, 31}}
+                       \cup {Ins(mn, <<Rg(w, a)>>) : mn \in {"JMP", "CALL"}, w \in {16, 32}, a \in {0, 3, 6}}
+                       \cup UNION {{Ins(mn, <<m>>) : mn \in {"JMP", "CALL"}, m \in MemFew(w)} : w \in {16, 32}}
     [] Part = "noop" -> {Ins(mn, << >>) : mn \in NoOps}
     [] Part = "c18r" -> {Ins(mn, <<Rg(w, a), Im(v, "d")>>) : mn \in AluI, w \in W, a \in Regs, v \in (-130..-126) \cup (125..130) \cup {0, 1, -1}}
                         \cup {Ins(mn, <<Rg(w, a), Im(v, "h")>>) : mn \in AluI, w \in {16, 32}, a \in {0, 3}, v \in {127, 128, 255}}
